@@ -3,7 +3,7 @@ CONSTANTS
     Suites <- GenThoroughSuites
     Tails = {"clean", "noeos", "cut_in", "cut_next", "junk"}
     SweepTails = TRUE
-    Garbles = 2
+    Garbles = 1
     Mode = "edges"
     Depth = 0
 VIEW View
